@@ -940,10 +940,11 @@ func (ds *DataStoreSet) buildDowntimeCommentsList(name TableName) (err error) {
 			}
 		}
 	}
+	numEntries := len(store.data)
 	hostStore.lock.RUnlock()
 	serviceStore.lock.RUnlock()
 	store.lock.RUnlock()
-	promObjectCount.WithLabelValues(ds.peer.Name, name.String()).Set(float64(len(store.data)))
+	promObjectCount.WithLabelValues(ds.peer.Name, name.String()).Set(float64(numEntries))
 
 	// empty current lists
 	hostStore.lock.Lock()
